@@ -356,7 +356,9 @@ def main():
         }],
         "checks": checks,
         "not_applicable": na,
-        "notes": "See DESIGN.md. Exit 2 = infrastructure failure/timeout (not a violation).",
+        "notes": "See DESIGN.md. Exit 2 = infrastructure failure/timeout (not a violation; VERIF_TIMEOUT seconds, default 3600 quick / 14400 thorough). "
+                 "known_findings.txt lists the genuine defects of the pinned tree that were repaired (`fixed:`) and those recorded without repair "
+                 "(`finding:`, reported as KNOWN-FINDING lines by C05, C08, C10, C11, C14, C15; each keyed to its exact history, anything else is a VIOLATION).",
     }
     with open(os.path.join(VERIF, "MANIFEST.json"), "w") as f:
         json.dump(man, f, indent=1)
